@@ -1,4 +1,4 @@
-\* C07 trace validation: TraceDriver's configuration (property-level layer of Driver) plus InvalidDiagnosed
+\* C07 trace validation: TraceDriver's configuration (property-level layer of Driver) with the verdict on the outcome of each run printed by the Observed step (JUDGED)
 \* (set TRACE=<ndjson file>; -workers 1 -continue)
 SPECIFICATION TraceSpecT
 CONSTANTS
@@ -13,6 +13,6 @@ CONSTANTS
   CleanupKept = TRUE
   PhasesUsed = {"load", "include", "scan", "syscmd", "linear", "parse", "abnorm", "macex", "abcheck", "scobind", "tinfer", "genfoam", "optfoam", "putao", "putlisp", "putjava", "putc", "putobject"}
   KindsUsed = {"ai", "ap", "asy", "ao", "fm", "lsp", "c", "java", "main"}
-INVARIANTS TypeOK HonestExit CompleteOnSuccess NoOutputAfterError FailureSurfaces NothingOpenAtSuccess PendingIsReported InvalidDiagnosed
+INVARIANTS MidTypeOK MidHonestExit MidCompleteOnSuccess MidNoOutputAfterError MidFailureSurfaces MidNothingOpen MidPendingIsReported
 ALIAS TraceAlias
 CHECK_DEADLOCK FALSE
